@@ -124,15 +124,52 @@ def open_sockets_to(w):
     return out
 
 
-def scenario(res, seq, use_vpc, segspec, pooling, failing, label="", own_hasher=False):
+class _FormattingHandler:
+    """what a real handler does with a record: it builds the message (and with it evaluates every logging argument)"""
+    level = 0
+
+    def __init__(self, counter):
+        self.counter = counter
+
+    def handle(self, record):
+        try:
+            record.getMessage()
+        except Exception:
+            pass
+        self.counter[0] += 1
+        return True
+
+
+def scenario(res, seq, use_vpc, segspec, pooling, failing, label="", own_hasher=False, opts=()):
+    """opts: 'debug-log' (the application runs with DEBUG logging for the library), 'tls' (a TLS context is configured),
+    'hand-added' (a server outside the advertised list was added through the public add_server() before a reconfiguration)"""
     import logging
     logging.raiseExceptions = False     # the library's own logger.exception() call has a formatting slip; keep stderr quiet
+    lg = logging.getLogger("pymemcache")
+    saved_log = (lg.level, list(lg.handlers), lg.propagate)
+    nrec = [0]
+    if "debug-log" in opts:
+        lg.setLevel(logging.DEBUG)
+        lg.handlers = [_FormattingHandler(nrec)]
+        lg.propagate = False
+    try:
+        return _scenario(res, seq, use_vpc, segspec, pooling, failing, label, own_hasher, tuple(opts))
+    finally:
+        lg.setLevel(saved_log[0])
+        lg.handlers = saved_log[1]
+        lg.propagate = saved_log[2]
+        res.count("log_records_formatted", nrec[0])
+
+
+def _scenario(res, seq, use_vpc, segspec, pooling, failing, label, own_hasher, opts):
     from pymemcache.client.ext.aws_ec_client import AWSElastiCacheHashClient
     import pymemcache.client.hash as hashmod
     from vk import driver
     w = World(driver.make_seg(segspec))
     viol = []
     case = (seq, use_vpc, segspec, pooling, failing, "", own_hasher) if own_hasher else (seq, use_vpc, segspec, pooling, failing)
+    if opts:
+        case = (seq, use_vpc, segspec, pooling, failing, "", own_hasher, opts)
 
     def v(key, msg):
         viol.append((key, msg))
@@ -155,6 +192,8 @@ def scenario(res, seq, use_vpc, segspec, pooling, failing, label="", own_hasher=
                 # a user-supplied hasher offering only the documented methods (add_node / remove_node / get_node)
                 from checks.c13 import ContractOnlyHasher
                 extra["hasher"] = ContractOnlyHasher
+            if "tls" in opts:
+                extra["tls_context"] = fakenet.FakeTLSContext(w.net)
             client = AWSElastiCacheHashClient("%s:11211" % CFG, socket_module=w.net, use_vpc=vpc_arg, use_pooling=pooling,
                                               retry_attempts=1, retry_timeout=10, dead_timeout=100, default_noreply=False, **extra)
         except Exception as e:
@@ -211,6 +250,18 @@ def scenario(res, seq, use_vpc, segspec, pooling, failing, label="", own_hasher=
                     v("error-endpoint-wrong-exception:%s" % type(e).__name__, "reconfigure against an ERROR endpoint raised %r" % (e,))
                 w.cfg_srv.cluster_config = saved_cfg
                 res.count("failed_reconfigurations")
+            if "hand-added" in opts and step == 1:
+                # somebody added a server by hand through the public add_server(); it is not advertised, so the next
+                # reconfiguration retires it like any other node that is no longer in the list
+                extra_node = next(u for i_, u in enumerate(UNIVERSE[:6]) if i_ not in prev and i_ not in adv)
+                client.add_server((extra_node[1] if use_vpc else extra_node[0]), extra_node[2])
+                for k in CORPUS[:80]:
+                    try:
+                        client.get(k)
+                    except Exception as e:
+                        v("routing-raises-with-a-hand-added-server:%s" % type(e).__name__, "get(%r) raised %r" % (k, e))
+                        break
+                res.count("hand_added_servers")
             w.advertise(adv)
             w.net.seg = driver.make_seg(segspec)
             w.net.begin_call("reconf%d" % step)
@@ -236,6 +287,18 @@ def scenario(res, seq, use_vpc, segspec, pooling, failing, label="", own_hasher=
             prev = adv
         if open_sockets_to(w).get(("10.9.9.9", 11211)):
             v("config-connection-left-open", "the connection to the configuration endpoint is still open")
+        if "tls" in opts:
+            res.count("tls_scenarios")
+            for s_ in w.net.socks:
+                for typ, detail, tmo, via, call in s_.history:
+                    if typ in (fakenet.T_CONNECT, fakenet.T_SENDALL, fakenet.T_RECV) and not via:
+                        v("tls-bypassed:%s" % ("config-endpoint" if s_.addr_key() == ("10.9.9.9", 11211) or call in ("ctor",) or str(call).startswith("reconf") else "node"),
+                          "socket %d (%r, call %r): %s not through the TLS wrapper although tls_context is configured"
+                          % (s_.sid, s_.addr_key(), call, typ))
+                        break
+            for kind, detail in w.net.alarms:
+                if kind == "RAW_IO_AFTER_WRAP":
+                    v("tls-bypassed:raw-io-after-wrap", detail)
     finally:
         hashmod.time = saved
         awsmod.time = saved_aws
@@ -267,6 +330,49 @@ def error_endpoint(res):
                 res.violation("error-endpoint-wrong-exception:%s" % type(e).__name__,
                               "endpoint answered ERROR during %s: raised %r instead of MemcacheUnknownCommandError" % (when, e), case)
             res.case(case)
+
+
+def odd_payload_endpoint(res):
+    """The endpoint answers the config command with an empty or garbled payload.  What the call raises is not the
+    statement's business; that the connection to the endpoint is closed whatever happened, and that the client is usable
+    again once the endpoint behaves, is (C06 for the Client inside the hash client; 'talks to exactly the advertised nodes')."""
+    from pymemcache.client.ext.aws_ec_client import AWSElastiCacheHashClient
+    payloads = [b"\n\r\nEND\r\n", b"CONFIG cluster 0 0\r\n\n\r\nEND\r\n", b"CONFIG cluster 0 5\r\n1\nxx\n\r\nEND\r\n",
+                b"CONFIG cluster 0 3\r\n1\n\n\n\r\nEND\r\n", b"\r\n\n\r\nEND\r\n"]
+    for use_vpc in (True, False):
+        for pi, payload in enumerate(payloads):
+            for when in ("construction", "reconfigure"):
+                w = World(fakenet.Whole() if pi % 2 == 0 else fakenet.SingleBytes())
+                case = ("odd-payload", use_vpc, pi, when)
+                res.count("odd_payload_cases")
+                c = None
+                try:
+                    if when == "construction":
+                        w.cfg_srv.cluster_config = payload
+                        AWSElastiCacheHashClient("%s:11211" % CFG, socket_module=w.net, use_vpc=use_vpc)
+                    else:
+                        w.advertise((0, 1))
+                        c = AWSElastiCacheHashClient("%s:11211" % CFG, socket_module=w.net, use_vpc=use_vpc)
+                        w.cfg_srv.cluster_config = payload
+                        c.reconfigure_nodes()
+                    res.count("odd_payload_accepted")
+                except Exception:
+                    res.count("odd_payload_raised")
+                if open_sockets_to(w).get(("10.9.9.9", 11211)):
+                    res.violation("config-connection-left-open:odd-payload",
+                                  "after the endpoint answered %r during %s the connection to it is still open" % (payload, when), case)
+                if c is not None:
+                    # the endpoint recovers: a later reconfiguration works and the client talks to the advertised nodes
+                    viol = []
+                    w.advertise((1, 2))
+                    try:
+                        c.reconfigure_nodes()
+                        route_and_check(res, w, c, (1, 2), use_vpc, lambda k, m: viol.append((k, m)), "after the endpoint recovered")
+                    except Exception as e:
+                        viol.append(("reconfigure-raises-after-odd-payload:%s" % type(e).__name__, repr(e)))
+                    for k, m in viol[:3]:
+                        res.violation(k, m, case)
+                res.case(case)
 
 
 def config_reply_len(idxs):
@@ -303,11 +409,14 @@ def shard(tier, seed, idx, n):
             pooling = (work // 5) % 2 == 1
             failing = ((work // 10) % 3 == 0 and len(seq) > 1) and (True if (work // 30) % 3 == 0 else 1 + (work // 30) % 3)
             own = (work // 7) % 4 == 0
-            viol, case = scenario(res, seq, use_vpc, segspec, pooling, failing, own_hasher=own)
+            opts = tuple(o for o, on in (("debug-log", (work // 3) % 3 == 0), ("tls", (work // 11) % 5 == 0),
+                                         ("hand-added", len(seq) > 1 and (work // 2) % 4 == 1
+                                          and len(set(seq[0]) | set(seq[1])) < 6 and max(seq[0] + seq[1]) < 6)) if on)
+            viol, case = scenario(res, seq, use_vpc, segspec, pooling, failing, own_hasher=own, opts=opts)
             if own:
                 res.count("scenarios_with_a_user_supplied_hasher")
             removes = any(set(a) - set(b) for a, b in zip(seq, seq[1:]))
-            nt = (seq, use_vpc, segspec[0], pooling, failing) if (removes or segspec[0] != "whole") else None
+            nt = (seq, use_vpc, segspec[0], pooling, failing, opts) if (removes or segspec[0] != "whole") else None
             res.case(nt, {"lists": seq, "use_vpc": use_vpc, "segmentation": segspec[0], "pooling": pooling, "failing_node_before": failing}
                      if res.evaluations % 97 == 0 else None)
             for key, msg in viol[:4]:
@@ -325,6 +434,8 @@ def shard(tier, seed, idx, n):
                 res.violation(key, msg, case)
     if idx == 0:
         error_endpoint(res)
+    if idx == 1 % n:
+        odd_payload_endpoint(res)
     return res
 
 
@@ -332,6 +443,8 @@ def replay(case):
     res = common.Result()
     if case[0] == "error-endpoint":
         error_endpoint(res)
+    elif case[0] == "odd-payload":
+        odd_payload_endpoint(res)
     else:
         viol, c = scenario(res, *case)
         for key, msg in viol:
